@@ -12,9 +12,17 @@ import time
 NCPU = os.cpu_count() or 4
 
 
+_REPORT_MARK = re.compile(r"==\d+==ERROR: |ERROR: AddressSanitizer|WARNING: ThreadSanitizer|runtime error: |Assertion `|terminate called")
+
+
 def _clip(err, head=9000, tail=3000):
+    """A long-lived worker may have written any amount of library chatter before it died: the sanitizer report
+    is kept from its first line on (its header names the error class), whatever came before is cut to a short head."""
     if len(err) <= head + tail:
         return err
+    m = _REPORT_MARK.search(err)
+    if m:
+        return err[:1500] + "\n...[clipped]...\n" + err[m.start():m.start() + head + tail]
     return err[:head] + "\n...[clipped]...\n" + err[-tail:]
 
 
@@ -62,6 +70,7 @@ def run_shards(argv_fn, total, nworkers=None, env=None, first_index=0, hang_s=12
                         stats["skipped_deadline"] += sh.end - sh.next
                     break
                 argv = argv_fn(sh.next, sh.end - sh.next)
+                proc_first = sh.next
                 proc = subprocess.Popen(argv, stdout=subprocess.PIPE, stderr=subprocess.PIPE, env=fenv, text=True,
                                         errors="replace", bufsize=1)
                 with lock:
@@ -118,7 +127,7 @@ def run_shards(argv_fn, total, nworkers=None, env=None, first_index=0, hang_s=12
                     with lock:
                         stats["hangs"] += 1
                 if inflight is not None and inflight not in reported:
-                    rec = {"run": inflight, "verdict": "died", "exit": rc, "hung": hung, "stderr": _clip(err), "phase": phase, "step": step, "refstate": refstate}
+                    rec = {"run": inflight, "verdict": "died", "exit": rc, "hung": hung, "stderr": _clip(err), "phase": phase, "step": step, "refstate": refstate, "proc_first": proc_first}
                     if partial:
                         rec["spec"] = partial.get("spec")
                         rec["trace"] = partial.get("trace")
